@@ -153,10 +153,25 @@ def nontrivial(case, aux):
             and any(a["res"] is not None for a in aux))
 
 
+def _complement_case(ks):
+    """update keys whose xor with the tracked key is 2^m - 1 for large m (every bit from the first differing one on differs):
+    the first differing bit must be found exactly, whatever the key size"""
+    key = bytes(range(0x10, 0x10 + ks))
+    ki = int.from_bytes(key, "big")
+    n = ks * 8
+    stream = []
+    for j, m in enumerate([n, n - 1, n - 7, n - 8, n - 9, 54, 53, 1]):
+        k = (ki ^ ((1 << m) - 1)).to_bytes(ks, "big")
+        stream.append(("update", k, [b"v", b"w" * 40, b"", b"\x01"][j % 4], None) if j % 3 else ("delete", k, None))
+    stream.append(("update", key, b"q", None))
+    return {"ks": ks, "default": b"", "prior": [("set", key, b"p")], "key": key, "stream": stream}
+
+
 def corpus():
     return [{"ks": 1, "default": b"", "prior": [("set", b"\x03", b"\x01")], "key": b"\x03",
              "stream": [("update", b"\x05", b"\x01", None), ("update", b"\x05", b"\x02", 6), ("update", b"\x03", b"\x05", 0),
-                        ("delete", b"\x83", 1), ("update", b"\x02", b"x", 7), ("update", b"\x02", b"y", 8), ("delete", b"\x03", None)]}]
+                        ("delete", b"\x83", 1), ("update", b"\x02", b"x", 7), ("update", b"\x02", b"y", 8), ("delete", b"\x03", None)]}] \
+        + [_complement_case(ks) for ks in (7, 8)]
 
 
 def check(tier, seed):
